@@ -457,7 +457,10 @@ floatLiteral
 	{
 		// remove separator "_"s
 		floatStr := strings.Replace($1.Literal, "_", "", -1)
-		n, _ := strconv.ParseFloat(floatStr, 64)
+		n, err := strconv.ParseFloat(floatStr, 64)
+		if err != nil {
+			yylex.Error(err.Error())
+		}
 		$$ = &ast.FloatLiteral{
 			Token: $1.Literal,
 			Value: n,
